@@ -104,7 +104,17 @@ func (ms msgServer) RemoveValidator(ctx context.Context, msg *poa.MsgRemoveValid
 		return nil, err
 	}
 
-	if len(vals) == 1 {
+	// the set must keep at least one other validator that is bonded, not jailed and has voting power
+	// (a validator removed earlier in this block is still bonded, with no tokens, until EndBlock)
+	others := 0
+	for _, val := range vals {
+		if val.OperatorAddress != msg.ValidatorAddress && val.IsBonded() && !val.Jailed &&
+			ms.k.stakingKeeper.TokensToConsensusPower(ctx, val.Tokens) > 0 {
+			others++
+		}
+	}
+
+	if others == 0 {
 		return nil, fmt.Errorf("cannot remove the last validator in the set")
 	}
 
